@@ -282,10 +282,12 @@ def load_known():
 
 
 def write_evidence(pid, tier, seed, level, coverage, wall, violations, assumptions):
-    os.makedirs(os.path.join(ROOT, 'evidence'), exist_ok=True)
+    # (trials on a changed copy of the repository -- tools/try_mutant.sh -- keep their evidence out of /verif/evidence)
+    evdir = os.environ.get('VERIF_EVIDENCE', os.path.join(ROOT, 'evidence'))
+    os.makedirs(evdir, exist_ok=True)
     ev = {'property_id': pid, 'tier': tier, 'seed': seed, 'level': level, 'coverage': coverage,
           'assumptions': assumptions, 'wall_s': round(wall, 1), 'violations': violations}
-    with open(os.path.join(ROOT, 'evidence', pid + '.json'), 'w') as f:
+    with open(os.path.join(evdir, pid + '.json'), 'w') as f:
         json.dump(ev, f, indent=1, default=str)
 
 
